@@ -23,7 +23,7 @@ import copy
 import json
 
 from harness.common import HarnessError
-from harness.gen import a04
+from harness.gen import a04, a04_worker
 from harness.props import c05
 
 DRIVERS = ["drv_c06"]
@@ -81,7 +81,8 @@ def apply_edit(t, lib, e):
             _cls(t, e["cls"]).add_symbol(parse_symbol(e["text"], e["name"]))
         elif kind == "remove_symbol":
             c = _cls(t, e["cls"])
-            c.remove_symbol(c.symbols[e["name"]])
+            sym = c.symbols[e["name"]]
+            c.remove_symbol(copy.deepcopy(sym) if e.get("how") == "deepcopy" else sym)
         elif kind == "add_equation":
             _cls(t, e["cls"]).add_equation(parse_equation(e["text"]))
         elif kind == "remove_equation":
@@ -90,8 +91,19 @@ def apply_edit(t, lib, e):
         elif kind == "add_class":
             _cls(t, e["parent"]).add_class(parse_class(e["desc"]))
         elif kind == "remove_class":
+            # the argument: the registered object, or what the lookup API hands out (find_class copies by default)
+            from pymoca import ast
             p = _cls(t, e["parent"])
-            p.remove_class(p.classes[e["name"]])
+            how = e.get("how", "registered")
+            if how == "find_class":
+                obj = p.find_class(ast.ComponentRef(name=e["name"]))
+            elif how == "find_class_root":
+                obj = t.find_class(ast.ComponentRef.from_tuple(tuple(e["parent"]) + (e["name"],)))
+            elif how == "deepcopy":
+                obj = copy.deepcopy(p.classes[e["name"]])
+            else:
+                obj = p.classes[e["name"]]
+            p.remove_class(obj)
         else:
             raise HarnessError("bad edit " + kind)
         return None
@@ -196,13 +208,21 @@ def confined(ctx, trees, j, fn, case):
 
 
 # ---- one history ---------------------------------------------------------------------------------
-def flatten_outcome(t, path, via):
+def flatten_outcome(t, path, via, refs=None):
+    """`refs`: reference objects of earlier requests of this history (a caller keeps the ComponentRef it asks with)"""
     from pymoca import ast, tree
     name = ".".join(path)
+    ref = None
+    if refs is not None:
+        ref = refs.get(tuple(path))
+    if ref is None:
+        ref = ast.ComponentRef.from_tuple(tuple(path))
+        if refs is not None:
+            refs[tuple(path)] = ref
     if via == "direct":
-        return a04.outcome(lambda: a04.flat_canon(tree.flatten(t, ast.ComponentRef.from_tuple(tuple(path))), True))
+        return a04.outcome(lambda: a04.flat_canon(tree.flatten(t, ref), True))
     if via == "copy":
-        return a04.outcome(lambda: a04.flat_canon(tree.flatten(copy.deepcopy(t), ast.ComponentRef.from_tuple(tuple(path))), True))
+        return a04.outcome(lambda: a04.flat_canon(tree.flatten(copy.deepcopy(t), ref), True))
     if via == "sympy":
         # (the generated text orders variables by the parser's running counter, which objects made for API
         #  edits do not continue: only success / exception class is compared; what matters is what the call
@@ -231,11 +251,8 @@ def settle(ctx, case, pending):
     for (n, i, ntrees, text, path, via, got) in pending:
         key = (text, tuple(path), via)
         if key not in fresh:
-            ft = a04.outcome(lambda: c05.parse(text))
-            if ft[0] != "ok" or ft[1] is None:
-                fresh[key] = ("exc", "does-not-parse")
-            else:
-                fresh[key] = flatten_outcome(ft[1], path, via)
+            # in an interpreter that never saw this history and is put back to its state after import before each call
+            fresh[key] = tuple(a04_worker.fresh().ask({"k": "c06", "text": text, "path": list(path), "via": via}))
         exp = fresh[key]
         ctx.count("op-flatten-%s-%s" % (via, "ok" if exp[0] == "ok" else "fails-fresh"))
         if ("exc", "RecursionError") in (got, exp) and got != exp:
@@ -257,6 +274,7 @@ def run_history(ctx, case, drv, pending):
         ctx.count("source-does-not-parse")
         return
     trees = [dict(tree=t0[1], lib=copy.deepcopy(lib0))]
+    refs = {}
     fresh = {}
     small = {k: case[k] for k in ("lib", "ops")}
     for n, op in enumerate(ops):
@@ -358,7 +376,7 @@ def run_history(ctx, case, drv, pending):
             # the real tree first; what a fresh parse of this tree's regenerated source gives is computed after the
             # whole history (settle), so that the oracle's own calls never sit between two steps of the history
             text = a04.render(trees[i]["lib"])
-            got = flatten_outcome(trees[i]["tree"], path, via)
+            got = flatten_outcome(trees[i]["tree"], path, via, refs)
             pending.append((n, i, len(trees), text, list(path), via, got))
         else:
             raise HarnessError("bad op %r" % (op,))
@@ -395,14 +413,28 @@ def gen_history(ctx, rng, nops):
         fresh_n[0] += 1
         return "%s_e%d" % (p, fresh_n[0])
 
-    def users(d, name):
-        out = []
-        for p in a04.class_paths(d):
-            c = a04.find_desc(d, p)
-            if any(name in x for x in c["extends"]) or any(name in k["text"] for k in c["comps"]):
-                out.append(list(p))
-        return out
     import re
+
+    def users(d, name, transitive=True):
+        """classes that mention `name` in a clause (imports, extends, components, equations, algorithms), and the
+        classes that mention those"""
+        allp = [list(p) for p in a04.class_paths(d)]
+        out, names, todo = [], set(), [name]
+        while todo:
+            nm = todo.pop()
+            if nm in names:
+                continue
+            names.add(nm)
+            for p in allp:
+                c = a04.find_desc(d, p)
+                if p in out or p[-1] == nm:
+                    continue
+                txts = c["imports"] + c["extends"] + [k["text"] for k in c["comps"]] + c["eqs"] + c["algo"]
+                if any(re.search(r"(?<![A-Za-z_0-9])%s(?![A-Za-z_0-9])" % re.escape(nm), x) for x in txts):
+                    out.append(p)
+                    if transitive:
+                        todo.append(p[-1])
+        return out
 
     def reaches(d, start, goals):
         """does instantiating class `start` instantiate one of `goals` (class paths)?  Edges: nested classes, and
@@ -478,6 +510,40 @@ def gen_history(ctx, rng, nops):
             ops.append(["flatten", i, p, via])
             ops.append(["flatten", i, p, "direct"])
             continue
+        if 0.26 <= pat < 0.42 and full:
+            # flatten a user; edit (or replace by a new definition of the same name) a class it uses -- on the tree or on
+            # a copy made after the flatten; flatten the user and the class again there, and the user in another tree
+            cand = [x for x in full if users(d, x[-1]) and not a04.find_desc(d, x)["prefix"]]
+            if cand:
+                x = rng.choice(cand)
+                us = users(d, x[-1])
+                u = rng.choice(us)
+                ops.append(["flatten", i, u, rng.choice(["direct", "direct", "copy"])])
+                j = i
+                if rng.random() < 0.5 and len(descs) < 6:
+                    ops.append(["copy", i, ncopy < 2])
+                    descs.append(copy.deepcopy(d))
+                    ncopy += 1
+                    j = len(descs) - 1 if rng.random() < 0.7 else i
+                dj = descs[j]
+                xd = a04.find_desc(dj, x)
+                name = fresh_name("s")
+                text = "Real %s(%s = %d);" % (name, rng.choice(a04.ATTRS), rng.randint(1, 9))
+                if pat < 0.34 or xd["short"] is not None:
+                    ops.append(["edit", j, dict(kind="add_symbol", cls=x, name=name, text=text), False])
+                    xd["comps"].append(dict(name=name, text=text))
+                else:
+                    nd = copy.deepcopy(xd)
+                    nd["comps"].append(dict(name=name, text=text))
+                    holder = a04.find_desc(dj, x[:-1]) if x[:-1] else dj
+                    ops.append(["edit", j, dict(kind="remove_class", parent=x[:-1], name=x[-1],
+                                                how=rng.choice(["registered", "find_class", "find_class_root", "deepcopy"])), False])
+                    ops.append(["edit", j, dict(kind="add_class", parent=x[:-1], desc=copy.deepcopy(nd)), False])
+                    holder["classes"] = [c for c in holder["classes"] if c["name"] != x[-1]] + [nd]
+                ops.append(["flatten", j, u, "direct"])
+                ops.append(["flatten", j, x, rng.choice(["direct", "copy"])])
+                ops.append(["flatten", rng.randrange(len(descs)), rng.choice(us), "direct"])
+                continue
         if pat < 0.26:
             # backend generate, then a class is removed from / added to the root; its users are flattened
             tops = [p for p in paths if len(p) == 1 and users(d, p[0])]
@@ -486,7 +552,8 @@ def gen_history(ctx, rng, nops):
                 us = users(d, y[0])
                 ops.append(["flatten", i, rng.choice(us), rng.choice(["sympy", "xml"])])
                 saved = copy.deepcopy(a04.find_desc(d, y))
-                ops.append(["edit", i, dict(kind="remove_class", parent=[], name=y[0]), False])
+                ops.append(["edit", i, dict(kind="remove_class", parent=[], name=y[0],
+                                            how=rng.choice(["registered", "find_class", "deepcopy"])), False])
                 d["classes"] = [c for c in d["classes"] if c["name"] != y[0]]
                 ops.append(["flatten", i, rng.choice(us), "direct"])
                 if rng.random() < 0.5 and len(descs) < 6:
@@ -548,7 +615,7 @@ def gen_history(ctx, rng, nops):
                 c["comps"].append(dict(name=name, text=text))
             elif q < 0.45 and c["comps"]:
                 k = rng.choice(c["comps"])
-                e = dict(kind="remove_symbol", cls=p, name=k["name"])
+                e = dict(kind="remove_symbol", cls=p, name=k["name"], how=rng.choice(["registered", "registered", "deepcopy"]))
                 c["comps"] = [x for x in c["comps"] if x["name"] != k["name"]]
             elif q < 0.7:
                 names = [k["name"] for k in c["comps"] if " Real " in " " + k["text"] and "[" not in k["text"]]
@@ -572,7 +639,8 @@ def gen_history(ctx, rng, nops):
                 (a04.find_desc(d, parent) if parent else d)["classes"].append(copy.deepcopy(nd))
             else:
                 parent = p[:-1]
-                e = dict(kind="remove_class", parent=parent, name=p[-1])
+                e = dict(kind="remove_class", parent=parent, name=p[-1],
+                         how=rng.choice(["registered", "registered", "find_class", "find_class_root", "deepcopy"]))
                 h = a04.find_desc(d, parent) if parent else d
                 h["classes"] = [x for x in h["classes"] if x["name"] != p[-1]]
             if e is not None:
@@ -644,6 +712,8 @@ def search(ctx):
 
 
 def translate(ctx):
+    from harness.gen import a04_worker
+    a04_worker.fresh()          # the reference interpreter starts importing now
     a04.translate_flags(ctx)
 
 
